@@ -310,6 +310,11 @@ func (b *boundsCtx) norm(v ssa.Value) lin {
 	lo, hi := int64(negInf), int64(posInf)
 	if w, ok := unsignedWidth(v.Type()); ok {
 		lo = 0
+		// masks and right shifts leave fewer significant bits than the type has (`pktType >> 4`)
+		wa := &widthAnalysis{c: b.c, memo: map[ssa.Value]int{}, prog: map[ssa.Value]bool{}}
+		if w2 := wa.width(v); w2 < w {
+			w = w2
+		}
 		if w < 62 {
 			hi = (int64(1) << uint(w)) - 1
 		}
